@@ -667,8 +667,8 @@ func main() {
 		r := common.NewRng(o.Seed)
 		var cases []Case
 		cases = append(cases, directed()...)
-		nPair := o.Budget(9000, 400000)
-		nRelay := o.Budget(5000, 250000)
+		nPair := o.Budget(4000, 120000)
+		nRelay := o.Budget(2500, 60000)
 		for i := 0; i < nPair; i++ {
 			cases = append(cases, genPair(r.Fork(uint64(i))))
 		}
